@@ -196,3 +196,11 @@ def test_d34_numpy_fixed_width_integer_arguments():
     g = sv.get_total_obs_num_samples(num_blocks=u8(6), length_mode='num_blocks', num_antennas=u8(1), sample_rate=1024.0,
                                      block_size=u8(96), num_bits=u8(8), num_pols=u8(1), num_branches=u8(8), num_chans=u8(2))
     assert int(g) == 6 * 24 * 8
+
+
+@pytest.mark.parametrize('ty', [np.uint8, np.int8, np.int16])
+def test_d35_num_bits_as_numpy_fixed_width_integer(ty):
+    x = np.random.default_rng(3).normal(size=500) * 3
+    want = np.asarray(sv.RealQuantizer(target_fwhm=32, num_bits=8).quantize(x))
+    got = np.asarray(sv.RealQuantizer(target_fwhm=32, num_bits=ty(8)).quantize(x))
+    assert np.array_equal(got, want)
